@@ -7,6 +7,8 @@ NS_EDIT = {"cls": "argparse.Namespace",
 
 def register(reg):
     register_config(reg)
+    register_create(reg)
+    register_magnet(reg)
     C = reg.contract
     L = "loaded(args.metafile)"
     flag = {"url-list": "url_list", "httpseeds": "httpseeds", "announce": "announce", "source": "source", "comment": "comment"}
@@ -54,8 +56,9 @@ def register_config(reg):
       params={"path": "str", "kwargs": "dict"},
       ghost={"k": "str", "t": "str"},
       setup=_config_setup,
+      setup_at_calls=True,
       modifies=["kwargs"],
-      requires=["not (('announce' in cfg) and ('tracker' in cfg))"],
+      requires=[("env", "not (('announce' in cfg) and ('tracker' in cfg))")],
       ensures=[
           ("C20", "config_key_lands_in_cli_dest",
            "implies(k in cfg, (config_kw(k) in kwargs) and kwargs[config_kw(k)] == config_conv(k, cfg[k]))"),
@@ -70,3 +73,99 @@ def register_config(reg):
       notes="the documented keys are announce, tracker, web-seed, http-seed, private, source, comment, piece-length, meta-version, "
             "out, align; config_kw(key) is read from cli.py on every run (dest of the create flag --key); a file giving both "
             "'announce' and 'tracker' is outside the precondition (last one wins, order-dependent)")
+
+
+NS_CREATE = {"cls": "argparse.Namespace",
+             "fields": {"config": "bool", "config_path": "any", "outfile": "any", "content": "any", "meta_version": "any",
+                        "magnet": "bool", "announce": "any", "private": "any", "source": "any", "comment": "any",
+                        "progress": "any", "piece_length": "any", "url_list": "any", "httpseeds": "any", "align": "any"}}
+WRITE_PRE = ["('info' in self.meta) and is_dict(self.meta['info'])",
+             "implies('piece layers' in self.meta, is_dict(self.meta['piece layers']))",
+             "self.outfile is None or is_str(self.outfile)"]
+
+
+def register_create(reg):
+    C = reg.contract
+    for cls in ("TorrentFile", "TorrentAssembler"):
+        C(f"torrentfile.torrent.{cls}.__init__", props=[], spec_only=True,
+          params={"self": {"cls": f"torrentfile.torrent.{cls}", "fields": {}}, "kwargs": "dict"},
+          creates={"meta": "dict", "outfile": "any", "name": "str"},
+          ensures=WRITE_PRE + ["implies('outfile' in kwargs, self.outfile == kwargs['outfile'])"],
+          raises={"BaseException": {}},
+          notes="assumed at this call site (constructors are verified through MetaFile.__init__ / assemble under C01-C03, C08, C12, C20); "
+                "reads the payload only")
+    C("torrentfile.commands.magnet", props=[], spec_only=True, params={"metafile": "any", "version": "int"}, returns="str",
+      raises={"BaseException": {}}, notes="read-only (verified separately under C11 / C18)")
+    C("torrentfile.commands.find_config_file", props=[], spec_only=True, params={"args": "any"}, returns="str",
+      raises={"FileNotFoundError": {}})
+    C("torrentfile.utils.check_path_writable", props=["C18"], params={"path": "str"}, returns="bool",
+      ghost={},
+      fs_modifies=["_path == probe_path(old(path))"],
+      ensures=[("C18", "probe_leaves_no_trace_when_it_created_nothing_else",
+                "implies(not fs_exists0(probe_path(old(path))), not fs_exists(probe_path(old(path))))"),
+               ("C18", "existing_file_survives_the_probe",
+                "implies(fs_isfile0(probe_path(old(path))), fs_isfile(probe_path(old(path))) and fs_data(probe_path(old(path))) == fs_data0(probe_path(old(path))))")],
+      raises={"PermissionError": {}, "OSError": {}},
+      notes="probe path = the argument, or <argument>/.torrent when the argument ends with a separator")
+    C("torrentfile.commands.create",
+      props=["C20", "C18"],
+      params={"args": NS_CREATE},
+      requires=["is_none(args.outfile) or is_str(args.outfile)", "is_str(args.meta_version)"],
+      call_obligations={
+          "torrentfile.commands.parse_config_file": [("C20", "config_values_go_into_the_namespace", "kwargs is vars(caller_args)")],
+          "torrentfile.torrent.TorrentFile.__init__": [
+              ("C20", "v1_creator_only_for_meta_version_1_after_config", "caller_args.meta_version == '1'"),
+              ("C20", "creator_gets_the_namespace_with_config_applied", "kwargs == vars(caller_args)")],
+          "torrentfile.torrent.TorrentAssembler.__init__": [
+              ("C20", "v2_hybrid_creator_for_other_versions_after_config", "caller_args.meta_version != '1'"),
+              ("C20", "creator_gets_the_namespace_with_config_applied", "kwargs == vars(caller_args)")],
+      },
+      raises={"BaseException": {}},
+      notes="C20: the options a creator sees are vars(args) after the configuration file has been applied; version dispatch uses "
+            "the post-config value")
+
+
+def register_magnet(reg):
+    C = reg.contract
+    L = "loaded(metafile)"
+    I = f"{L}['info']"
+    V1 = f"(('pieces' in {I}) and (not ('meta version' in {I}) or version == 0 or version == 1 or version == 3))"
+    V2 = f"(('meta version' in {I}) and version != 1)"
+    TR = (f"(join_map('&tr=', flatten({L}['announce-list'])) if 'announce-list' in {L} else "
+          f"(('&tr=' + quote_plus({L}['announce'])) if 'announce' in {L} else ''))")
+    WS = f"(join_map('&ws=', {L}['url-list']) if 'url-list' in {L} else '')"
+    XT = (f"(('xt=urn:btih:' + sha1hex(benc({I}))) if {V1} else '') + ('&' if {V1} and {V2} else '') + "
+          f"(('xt=urn:btmh:1220' + sha256hex(benc({I}))) if {V2} else '')")
+    reg.contracts.pop("torrentfile.commands.magnet", None)
+    C("torrentfile.commands.magnet",
+      props=["C11", "C18"],
+      params={"metafile": "str", "version": "int"},
+      returns="str",
+      requires=[
+          "fs_isfile(metafile)", "0 <= version <= 3",
+          ("env", f"is_dict({L}) and ('info' in {L}) and is_dict({I}) and ('name' in {I}) and is_str({I}['name'])"),
+          ("env", f"('meta version' in {I}) or ('pieces' in {I})"),                      # well-formed: v1 content or v2 content
+          ("env", f"not (('meta version' in {I}) and not ('pieces' in {I}) and version == 1)"),   # a request the metafile can satisfy
+          ("env", f"implies('announce-list' in {L}, is_list({L}['announce-list']))"),
+          ("env", f"implies('announce' in {L}, is_str({L}['announce']))"),
+          ("env", f"implies('url-list' in {L}, is_list({L}['url-list']))"),
+          # the lone empty URL corner ("&tr=" / "&ws=" alone) is not judged (DESIGN: either reading accepted)
+          ("env", f"{TR} != '&tr=' and {WS} != '&ws='"),
+      ],
+      fs_modifies=[],
+      fs_props=["C18"],
+      ensures=[
+          ("C11", "uri_is_exactly_the_specified_string",
+           f"result == 'magnet:?' + {XT} + '&dn=' + quote_plus({I}['name']) + {TR} + {WS}"),
+      ],
+      raises={"pyben.exceptions.DecodeError": {}, "pyben.exceptions.EncodeError": {}},
+      notes="btih / btmh are hex SHA-1 / SHA-256 of benc(loaded info) -- equal to the info span of the file by the assumed pyben "
+            "round trip; tr = flattened announce-list if present else announce; ws = url-list; every value through quote_plus")
+    C("torrentfile.commands.get_magnet",
+      props=["C11"],
+      params={"namespace": {"cls": "argparse.Namespace", "fields": {"metafile": "str", "meta_version": "str"}}},
+      returns="str",
+      call_obligations={"torrentfile.commands.magnet": [
+          ("C11", "requested_version_passed_on", "version == int_value(caller_namespace.meta_version) and metafile == caller_namespace.metafile")]},
+      requires=["ascii_decimal(namespace.meta_version) and 0 <= int_value(namespace.meta_version) <= 3", "fs_isfile(namespace.metafile)"],
+      raises={"BaseException": {}})
